@@ -190,7 +190,8 @@ def line_number_threshold(ctx):
             v, m = smt.check(list(pc) + [n > 32699], 10000, True)
             what = "accepted only when <= 32699"
         else:
-            raise HarnessError(f"line checker on symbolic number: {stt} {val!r}")
+            ctx.harness_gap(f"line checker on symbolic number: {stt} {val!r}")
+            continue
         ctx.stats[v] += 1
         ctx.sample({"obligation": "line number " + what, "path": [str(c) for c in pc][2:], "verdict": v})
         if v == "sat":
@@ -307,7 +308,8 @@ def run(tier):
             ctx.stats["disagreements_checked"] += 1
         for sig, what, oi in r["sigs"]:
             if sig.startswith("harness"):
-                raise HarnessError(f"{r['src']!r}: {what}")
+                ctx.harness_gap(f"{r['src']!r}: {what}")
+                continue
             if sig.startswith("unknown"):
                 ctx.note_inconclusive(what)
                 continue
